@@ -331,7 +331,7 @@ func Schema(v any, ren RefRename) (string, error) {
 }
 
 // landmark exponents of JV "big" numerals
-var landmarks = []uint{7, 8, 15, 16, 31, 32, 63, 64}
+var landmarks = []uint{7, 8, 15, 16, 31, 32, 53, 63, 64}
 
 // FromJSON abstracts concrete JSON text into the document encoding of JV. Values outside the abstract
 // domain become {t:"odd", x:<text>}, which is JSON-equal to nothing.
